@@ -231,6 +231,17 @@ def h_scalar_types(env, method):
             else:
                 got, want = b.get_standard_error(op, circ), 0.0
             env.check_true(abs(complex(got) - complex(want)) < tol, f"{method} with {name} coefficients == dense reference", detail=f"got {got!r}, reference {want!r}")
+        if method == "get_expectation_value":
+            # weak terms: coefficient parts between the documented compression tolerance (1e-8) and 1e-4 still count
+            weak = [0.5 - 0.25j, 3e-5 + 0j, -0.75 + 2e-5j, 6e-5 - 4e-5j]
+            for name, ty in (("complex", complex), ("np.complex128", np.complex128), ("real part only", None)):
+                op = QubitOperator()
+                for w, c in zip(words, weak):
+                    op.terms[w] = ty(c) if ty else c.real
+                e_ref = sum(complex(c) * (sv.conj() @ dense[w] @ sv) for w, c in op.terms.items())
+                got = b.get_expectation_value(op, circ)
+                env.check_true(abs(complex(got) - complex(e_ref)) < 1e-9, f"get_expectation_value with weak terms (|coefficient part| 2e-5 .. 6e-5, {name}) == dense reference",
+                               detail=f"got {got!r}, reference {e_ref!r}")
 
 
 def h_sympy_expect(env, words, spec, n, canary=False):
